@@ -35,7 +35,7 @@ theorem followQ_expr (x : Tok) (hx : plainTok x = true) (hop : ∀ o', binopOfTo
 
 /-- an operator expression followed by `,`, `|` or a closing token -/
 theorem climb_expr (q : Query) (ih : RTQ q) (x : Tok) (rest : List Tok) (hx : plainTok x = true)
-    (hop : ∀ o', binopOfTok x = some o' → o'.lv ≤ 2) (hna : x ≠ .kw .as_) (hok : okQ false 3 q = true) :
+    (hop : ∀ o', binopOfTok x = some o' → o'.lv ≤ 2) (_hna : x ≠ .kw .as_) (hok : okQ false 3 q = true) :
     ∃ F, ∀ f, F ≤ f → pClimb f false 3 (toks (itemsQ q) ++ x :: rest) = some (q, x :: rest) := by
   refine climb_done q ih false 3 (x :: rest) hok (by simpa using followQ_expr x hx hop q 3 (Nat.le_refl _) hok) ?_ ?_
   · intro y o hy ho
